@@ -436,6 +436,12 @@ def gen_programs(run):
     if "three_players" in t:
       for prog in programs(3, t["three_players"]["ops"], ["one", "twohalf"], late_play=False):
         yield ([prog, wait, False, 1], t["three_players"]["bound"])
+  if t["two_players"]["bound"] < 2:
+    # a player that ends while the next one is being launched needs two deviations (switch to it, keep it
+    # running through its device write): the plain two-player programs at that depth in the quick tier too
+    for wait in (False, True):
+      yield ([[["play", "one"], ["play", "twohalf"]], wait, False, 1], 2)
+      yield ([[["play", "empty"], ["play", "one"]], wait, False, 1], 2)
   # the chunk size taken from chunks.size (changed by the user after import) instead of an argument
   for wait in (False, True):
     yield ([[["play", "twohalf"]], wait, False, "1d"], 1)
